@@ -116,17 +116,35 @@ def r_module_state(ctx, model):
                                                   f"gets what an earlier one computed (or modified), whatever the files contain now", instance=f"{mname}:{q}:cache")
     if total == 0:
         ctx.ok(f"no write to module-level, class-level or default-argument state in {n} functions", Where("cij", "", 0), f"{n} functions")
-    # the one imported mutable that is updated must be copied first
+    # imported library mutables (qha's DEFAULT_SETTINGS): every use in every live function is a copy or a read
+    from ..effects import shared_object_uses
+    n_uses = 0
+    bad = []
+    where = None
+    from ..libsum import lib_global_is_mutable
+    import functools
+    is_mut = functools.lru_cache(None)(lib_global_is_mutable)
+    for mname, mod in live_modules(model):
+        # the model spells every external name by its canonical dotted path (qha.settings.DEFAULT_SETTINGS)
+        for q, f in mod.funcs.items():
+            shared = set()
+            for node in ast.walk(f):
+                if isinstance(node, ast.Attribute):
+                    d = dotted_name(node)
+                    if d and d.count(".") >= 1 and d.split(".")[0] in mod.imports and mod.imports[d.split(".")[0]][0] == "mod" \
+                            and d.rsplit(".", 1)[1].isupper() and is_mut(d):
+                        shared.add(d.rsplit(".", 1)[1])
+            for nm in sorted(shared):
+                for node, kind in shared_object_uses(f, nm):
+                    n_uses += 1
+                    where = where or Where(mod.rel, q, node.lineno)
+                    if kind in ("mutated", "escapes"):
+                        bad.append((Where(mod.rel, q, node.lineno), f"{q}: {nm} {kind} [{src(node)}]"))
     ref = "cij.core.qha_adapter:QHACalculatorAdapter._load_qha_calculator"
     f = model.func(ref)
-    ok = False
-    for st in ast.walk(f):
-        if isinstance(st, ast.Assign) and isinstance(st.value, ast.Call) and (dotted_name(st.value.func) or "") in ("copy.copy", "copy.deepcopy", "dict") \
-                and st.value.args and src(st.value.args[0]).split(".")[-1] == "DEFAULT_SETTINGS":
-            ok = True
-    uses = [n for n in ast.walk(f) if (isinstance(n, ast.Name) and n.id == "DEFAULT_SETTINGS") or (isinstance(n, ast.Attribute) and n.attr == "DEFAULT_SETTINGS")]
-    ctx.check(ok and len(uses) == 1, "qha DEFAULT_SETTINGS is copied before the user settings are merged in", model.where(ref, f),
-              expected="user_settings = copy.copy(DEFAULT_SETTINGS); user_settings.update(settings)", found=f"{len(uses)} use(s), copied: {ok}",
+    ctx.check(not bad and n_uses >= 1, "imported library defaults (qha DEFAULT_SETTINGS) are only read or copied, never updated in place or handed on", bad[0][0] if bad else model.where(ref, f),
+              expected="copy.copy(DEFAULT_SETTINGS) / dict(DEFAULT_SETTINGS) / {**DEFAULT_SETTINGS, ...} before the user settings are merged in",
+              found="; ".join(b for _, b in bad[:3]) or f"{n_uses} use(s), all copies or reads",
               explanation="the library's default-settings dictionary is updated in place: settings of one calculation leak into the next",
               key="DEFAULT_SETTINGS.copy")
 
@@ -163,6 +181,13 @@ def r_param_mutation(ctx, model):
         for p in sorted(params):
             if (mname, q, p) in PARAM_MUTATION_ALLOWED:
                 ctx.ok(f"{q}({p}) mutates its argument: allowed by name", Where(mod.rel, q, f.lineno), PARAM_MUTATION_ALLOWED[(mname, q, p)])
+                continue
+            conf = set()
+            direct = mutated_params(f, None, configures=conf)
+            if p in conf and p in direct:
+                # only `p.attr = value`: re-points attributes of the caller's object - exactly what the caller could write inline
+                # (and inline attribute stores are judged by the typestate rule R14.7, not as value mutation)
+                ctx.ok(f"{q}({p}) only re-points attributes of its argument (no in-place change of a value)", Where(mod.rel, q, f.lineno), "attribute stores only")
                 continue
             pos = plist.index(p) - off
             # every call site in the package passes a fresh value
